@@ -110,6 +110,7 @@ public:
     }
 
     [[nodiscard]] n_keys_body_type get_n_keys() {
+        YAKUSHIMA_VERIF_HOOK(YAKUSHIMA_VERIF_LOAD, &n_keys_);
         return n_keys_.load(std::memory_order_acquire);
     }
 
@@ -165,6 +166,7 @@ public:
                 ret_child = nullptr;
                 break;
             }
+            YAKUSHIMA_VERIF_HOOK(YAKUSHIMA_VERIF_RETRY, this);
             v = check_v;
         }
         return ret_child;
@@ -210,6 +212,7 @@ public:
                     set_key(i, key_slice, key_length);
                     shift_right_children(i + 1);
                     set_child_at(i + 1, child);
+                    YAKUSHIMA_VERIF_HOOK(YAKUSHIMA_VERIF_STORE, this);
                     n_keys_increment();
                     return;
                 }
@@ -218,6 +221,7 @@ public:
                 set_key(i, key_slice, key_length);
                 shift_right_children(i + 1);
                 set_child_at(i + 1, child);
+                YAKUSHIMA_VERIF_HOOK(YAKUSHIMA_VERIF_STORE, this);
                 n_keys_increment();
                 return;
             }
@@ -225,6 +229,7 @@ public:
         // insert to rightmost points
         set_key(n_key, key_slice, key_length);
         set_child_at(n_key + 1, child);
+        YAKUSHIMA_VERIF_HOOK(YAKUSHIMA_VERIF_STORE, this);
         n_keys_increment();
     }
 
@@ -246,6 +251,7 @@ public:
     }
 
     void set_n_keys(const n_keys_body_type new_n_key) {
+        YAKUSHIMA_VERIF_HOOK(YAKUSHIMA_VERIF_STORE, &n_keys_);
         n_keys_.store(new_n_key, std::memory_order_release);
     }
 
